@@ -39,8 +39,13 @@ GRAMMAR
                                                                        the pointer becomes None and the loop ends)
                | `acc = min(acc, v.deadline)` | `acc = -math.inf` | `acc = math.inf`
                | `raise CancelledError(...)`                          (check_cancelled only: result "raises")
-               | `await sleep(0)`                                     (checkpoint_if_cancelled only: result "spins";
-                                                                       must end the iteration without advancing)
+               | `await sleep(0)` `v = _task_states[task].cancel_scope` (checkpoint_if_cancelled only: result "spins":
+                                                                       the task yields and then RESTARTS the walk from
+                                                                       its own scope (F46) -- the assignment must repeat
+                                                                       the pointer initialisation of the preamble, must
+                                                                       follow the await directly and must end the
+                                                                       iteration; a bare `await sleep(0)` that re-tests
+                                                                       the same scope (the pre-F46 shape) is refused)
                | `v._deliver_cancellation(v)`                         (_restart_cancellation only: result = this scope)
   test       ::= `v._cancel_called` | `v.cancel_called` | `v._shield` | `v.shield`
                | `v._cancel_handle is None` | `v._cancel_handle is not None`
@@ -193,6 +198,7 @@ class Walk:
         self.early_returns = []   # (node, coq value) of preamble early returns
         self.while_true = False
         self.post = []
+        self.init_dump = None     # dump of `_task_states[task].cancel_scope` when the pointer is initialised from it
 
     # ----- helpers ---------------------------------------------------------------------------------------
     def R(self, node, what):
@@ -348,12 +354,23 @@ class Walk:
                 self.R(s, f"`await` in a walk that is not checkpoint_if_cancelled: {describe(s)}")
             if dump(s.value.value) != dump(ast.parse("sleep(0)", mode="eval").body):
                 self.R(s, f"await of something other than sleep(0): {describe(s)}")
-            if rest:
-                self.R(rest[0], f"statement after `await sleep(0)` in the same block: {describe(rest[0])}")
-            # the iteration must end here without advancing: the same scope is re-tested after the suspension
+            # F46: the yield must be followed directly by the restart of the walk from the task's own scope
+            if not rest:
+                self.R(s, "`await sleep(0)` is not followed by the restart of the walk "
+                          f"`{self.v} = _task_states[task].cancel_scope` (pre-F46 shape: the same scope would be re-tested)")
+            r0 = rest[0]
+            ok = (self.init_dump is not None and isinstance(r0, ast.Assign) and len(r0.targets) == 1
+                  and isinstance(r0.targets[0], ast.Name) and r0.targets[0].id == self.v
+                  and dump(r0.value) == self.init_dump)
+            if not ok:
+                self.R(r0, f"statement after `await sleep(0)` is not the restart `{self.v} = <pointer initialisation>`: "
+                           f"{describe(r0)}")
+            if rest[1:]:
+                self.R(rest[1], f"statement after the restart of the walk in the same block: {describe(rest[1])}")
+            # the iteration must end here: the next iteration starts again at the task's current scope
             probe = fall(ctx.copy(advanced=False, effect="SPIN"))
             if probe != "SPIN-END":
-                self.R(s, "`await sleep(0)` is followed by further statements in the iteration")
+                self.R(s, "`await sleep(0)` + restart is followed by further statements in the iteration")
             return "true"
         if isinstance(s, ast.Expr) and isinstance(s.value, ast.Call):
             want = ast.parse(f"{self.v}._deliver_cancellation({self.v})", mode="eval").body
@@ -443,6 +460,7 @@ class Walk:
                     if self.v is not None:
                         self.R(s, "second pointer initialisation")
                     self.v = b.targets[0].id
+                    self.init_dump = dump(b.value)
                     self.early_returns.append(h.body[0])
                     continue
                 self.R(s, f"unsupported try statement before the loop: {describe(s)}")
@@ -653,6 +671,9 @@ def generate(repo: Path) -> str:
     if not isinstance(f, ast.AsyncFunctionDef):
         refuse("AsyncIOBackend.checkpoint_if_cancelled", f, "is no longer a coroutine function")
     parts.append(Walk("AsyncIOBackend.checkpoint_if_cancelled", f, "spins", "scope", "gen_ckif_spins").translate())
+    parts.append("(* after the yield the walk restarts from the task's own scope (`_task_states[task].cancel_scope` is read\n"
+                 "   again, F46): the machine re-evaluates gen_ckif_spins on the chain of k_cur at every resumption *)\n"
+                 "Definition gen_ckif_restarts_from_task_scope : bool := true.")
     f = find_func(be.body, "current_effective_deadline", "AsyncIOBackend")
     parts.append(Walk("AsyncIOBackend.current_effective_deadline", f, "xtime", "scope", "gen_eff_deadline").translate())
     f = find_func(be.body, "check_cancelled", "AsyncIOBackend")
